@@ -14,6 +14,8 @@ PIECES = [
     "{% for i in arr %}", "{% for %}", "{% endfor %}", "{% break %}", "{% continue %}", "{% nosuch %}", "{% assign q = 1 %}", "{% assign %}", "{% case x %}", "{% when 1 %}", "{% when %}", "{% endcase %}",
     "{% unless x %}", "{% endunless %}", "{% capture c %}", "{% endcapture %}", "{{ a.b c }}", "{{ a[1 }}", "{% include 'nosuch' %}", "{% render %}", "{% cycle %}", "{% liquid echo x\nnosuch %}",
     "{{ x | plus: 'z' }}", "{% for i in (1..'a') limit: 'q' %}", "{{ x < }}", "{% if x > 'a' %}",
+    # names that are not plain words where an identifier is expected, oversized digit strings
+    "{% assign [x] = 1 %}", "{% assign [[x]] = 1 %}", "{% capture [x] %}", "{% assign x? = 1 %}", "{% for [i] in arr %}", "{{ arr[" + "1" * 4400 + "] }}", "{{ " + "9" * 4400 + " }}", "{% increment [x] %}",
 ]
 DATA = dict(x=1, y=True, arr=[1, 2], a={"b": 1})
 
